@@ -562,11 +562,19 @@ def impl_optable(c):
     return {"ops": ops, "installed": installed}
 
 
-IMPL_SECONDS = 0.5
+IMPL_SECONDS = 1.0
 IMPL_BYTES = 6 << 30
 
 
 def impl(c):
+    """ a case that hits the watchdog is run a second time: only a repeated time-out is reported """
+    io = _impl_once(c)
+    if io.get("err") == "TIMEOUT":
+        io = _impl_once(c)
+    return io
+
+
+def _impl_once(c):
     """ one case on the real code, under a watchdog: a realistic bug can make a lazy stage eager on an
         endless operand (no return / unbounded memory); that must become an observation, not a hang.
         The timer counts CPU time of this process (ITIMER_VIRTUAL), so machine load cannot trip it. """
@@ -576,6 +584,9 @@ def impl(c):
         AL()                      # first use: import outside the per-case watchdog
     except BaseException:
         pass
+    import gc
+    gc_was_on = gc.isenabled()
+    gc.disable()                  # a full collection of the engine's heap costs ~1 s of CPU: not inside the timed region
     old_handler = signal.signal(signal.SIGVTALRM, _on_alarm)
     soft, hard = resource.getrlimit(resource.RLIMIT_AS)
     try:
@@ -602,6 +613,8 @@ def impl(c):
             resource.setrlimit(resource.RLIMIT_AS, (soft, hard))
         except (ValueError, OSError):
             pass
+        if gc_was_on:
+            gc.enable()
 
 
 def request(c):
